@@ -100,6 +100,9 @@ def gen(cls, idx, rng, tier):
         if cls != "sizes" and rng.random() < .7:
             size = 4 * rng.randint(128, 1200)
         boots.append(dict(kw=kw, dct=dct, preset=preset, size=size,
+                          state=rng.choice(["down"] * 5 + ["up", "bmp", "dead",
+                                                           "down-unchecked"])
+                          if cls == "controller" else "down",
                           seed=rng.randrange(1 << 30),
                           delay=rng.choice([0.05, 0.0, 0.01])))
     return dict(kind="controller" if cls == "controller" else "plain",
@@ -236,14 +239,18 @@ def run(case, ctx):
                 options.update(dct)
             options.update(b["kw"])
             datagrams = []
-            state = dict(booted=False)
+            mstate = b.get("state", "down")
+            state = dict(booted=mstate in ("up", "bmp"))
             m = M.Machine(1, 1)
+            if mstate == "bmp":
+                m.version_name = b"BC&MP/Spin5-BMP"
 
             def handler(sock, addr, data, datagrams=datagrams, state=state,
                         m=m):
                 if addr[1] == 54321:
                     datagrams.append(bytes(data))
-                    if struct.unpack_from("!H4I", data)[1] == 5:
+                    if struct.unpack_from("!H4I", data)[1] == 5 and \
+                            mstate != "dead":
                         state["booted"] = True
                     return None
                 if not state["booted"]:
@@ -261,12 +268,33 @@ def run(case, ctx):
                     kw2 = dict(kwargs)
                     if dct is not None:
                         kw2["sv_overrides"] = dct
-                    did = mc.boot(scamp_binary=path, boot_delay=b["delay"],
-                                  **kw2)
+                    if mstate == "down-unchecked":
+                        kw2["only_if_needed"] = False
+                    where["machine"] = mstate
+                    try:
+                        did = mc.boot(scamp_binary=path,
+                                      boot_delay=b["delay"], **kw2)
+                    except mcm.SpiNNakerBootError as e:
+                        did = e
                     structs = mc.structs
                     ctx.hit("controller_boot")
-                    check(did is True, "controller-boot-result", repr(did),
-                          **where)
+                    if mstate in ("up", "bmp"):
+                        # nothing may be sent to the boot port of a machine
+                        # that answers already (or of a board controller)
+                        ctx.hit("boot_not_needed")
+                        check(did is False if mstate == "up" else
+                              isinstance(did, mcm.SpiNNakerBootError),
+                              "controller-boot-result", repr(did), **where)
+                        check(not datagrams, "boot-data-to-running-machine",
+                              "%d boot datagrams" % len(datagrams), **where)
+                        continue
+                    if mstate == "dead":
+                        ctx.hit("boot_failed_reported")
+                        check(isinstance(did, mcm.SpiNNakerBootError),
+                              "controller-boot-result", repr(did), **where)
+                    else:
+                        check(did is True, "controller-boot-result",
+                              repr(did), **where)
                 else:
                     kw2 = dict(kwargs)
                     if dct is not None:
